@@ -156,6 +156,45 @@ theorem inPolygon_region {r f : Nat} {cs : List (List FSt)} (hr : 1 ≤ r) (hg :
           omega
         omega
 
+/-- **even-odd rule over all rings of the polygon** (exterior and holes together): the total number of
+    crossings is odd exactly for the pixels of the region -/
+theorem evenodd_region {r f : Nat} {cs : List (List FSt)} (hr : 1 ≤ r) (hg : GoodReg nx ny regs r f cs)
+    (hcov : ∀ X Y : Nat, X < nx → Y + 1 < ny → regs (X + Y * nx) = r → regs (X + (Y + 1) * nx) ≠ r →
+      (⟨(X : Int), (Y : Int), .W⟩ : FSt) ∈ cs.flatten)
+    (X Y : Nat) (hX : X < nx) (hY : Y < ny) :
+    ((cs.map cycRing).map (fun ring => crossings ring (X : Int) (Y : Int))).sum % 2 =
+      if regs (X + Y * nx) = r then 1 else 0 := by
+  have hR := inRegion_inRaster nx ny regs r
+  have hclosed : Closed (inRegion nx ny regs r) cs.flatten := closed_flatten _ (fun c hc => (hg.cyc c hc).1)
+  have hnd := hg.nodup
+  obtain ⟨c0, rest, hcs, hE0⟩ := hg.head
+  have hEf : Est nx f ∈ cs.flatten := by
+    rw [hcs, List.flatten_cons]; exact List.mem_append_left _ hE0
+  have hind := w_indicator hnx regs r hclosed (f := f)
+    (fun p hp' hpr => region_const nx ny hnx regs conn8 E hE hconn (by omega) hg.inr hg.reg hclosed p hp' hpr)
+    hg.first (by rw [hnd.count]; exact if_pos hEf)
+    (fun X' Y' hX' hY' h1 h2 => by rw [hnd.count]; exact if_pos (hcov X' Y' hX' hY' h1 h2)) X hX Y hY
+  have key : ∀ ds : List (List FSt), (∀ c ∈ ds, IsCyc (inRegion nx ny regs r) c) →
+      (((ds.map cycRing).map (fun ring => crossings ring (X : Int) (Y : Int))).sum : Int) % 2 =
+        wcol ds.flatten (X : Int) (Y : Int) % 2 := by
+    intro ds
+    induction ds with
+    | nil => intro _; simp [wcol_nil]
+    | cons c ds ih =>
+      intro h
+      have ih' := ih fun c' hc' => h c' (List.mem_cons_of_mem _ hc')
+      obtain ⟨hcl, m, start, hm, e, hit⟩ := h c List.mem_cons_self
+      have h1 := crossings_cycRing (inRegion nx ny regs r) (X : Int) (Y : Int) m start hm hit
+      have h2 := wrow_eq_wcol' hcl hR (X : Int) (Y : Int)
+      rw [← e] at h1
+      unfold wrow at h2
+      simp only [List.map_cons, List.sum_cons, List.flatten_cons, wcol_append, h1]
+      push_cast
+      omega
+  have := key cs hg.cyc
+  rw [hind] at this
+  split at this <;> split <;> omega
+
 /-- **`_scan` is lossless** on a region array whose ids are first-pixel ranks and whose regions are connected -/
 theorem scan_lossless (values : Nat → V) (hrank : Ranked regs (nx * ny)) :
     let sc := (List.range (nx * ny)).foldl (scanStep nx ny regs values) ⟨[], [], 0, [], [], true⟩
@@ -164,7 +203,9 @@ theorem scan_lossless (values : Nat → V) (hrank : Ranked regs (nx * ny)) :
     (∀ i, i < sc.regionDone → ∃ f, f < nx * ny ∧ regs f = i + 1 ∧ (∀ p, p < f → regs p ≠ i + 1) ∧
       sc.column.reverse[i]? = some (values f)) ∧
     (∀ i, i < sc.regionDone → ∀ X Y : Nat, X < nx → Y < ny →
-      inPolygon (sc.polys.getD i []) (X : Int) (Y : Int) = (regs (X + Y * nx) == i + 1)) := by
+      inPolygon (sc.polys.getD i []) (X : Int) (Y : Int) = (regs (X + Y * nx) == i + 1) ∧
+      ((sc.polys.getD i []).map (fun ring => crossings ring (X : Int) (Y : Int))).sum % 2 =
+        if regs (X + Y * nx) = i + 1 then 1 else 0) := by
   intro sc
   obtain ⟨cyc, fs, h0⟩ := scan_inv nx ny hnx regs values hrank
   have h : ScanInv nx ny regs values (nx * ny) (nx * ny) sc cyc fs := h0
@@ -181,7 +222,10 @@ theorem scan_lossless (values : Nat → V) (hrank : Ranked regs (nx * ny)) :
   · intro i hi X Y hX hY
     obtain ⟨hg, _⟩ := h.good (i + 1) (by omega) (by omega)
     rw [hpol i hi]
-    apply inPolygon_region nx ny hnx regs conn8 E hE hconn (by omega) hg _ X Y hX hY
+    suffices hcov : ∀ X' Y' : Nat, X' < nx → Y' + 1 < ny → regs (X' + Y' * nx) = i + 1 →
+        regs (X' + (Y' + 1) * nx) ≠ i + 1 → (⟨(X' : Int), (Y' : Int), .W⟩ : FSt) ∈ (cyc (i + 1)).flatten from
+      ⟨inPolygon_region nx ny hnx regs conn8 E hE hconn (by omega) hg hcov X Y hX hY,
+       evenodd_region nx ny hnx regs conn8 E hE hconn (by omega) hg hcov X Y hX hY⟩
     intro X' Y' hX' hY' h1 h2
     have hq : X' + (Y' + 1) * nx < nx * ny := by
       have : (Y' + 1 + 1) * nx ≤ ny * nx := Nat.mul_le_mul_right nx hY'
